@@ -411,7 +411,7 @@ func c16Outcome(pan string, ok string) string {
 }
 
 func runC16(seed int64, n int, tier string, outDir string) (*Report, error) {
-	rep := &Report{Rule: "native: FlattenObjectProperties / FlattenActorProperties / FlattenIntransitiveActivityProperties / FlattenActivityProperties on values whose flattened positions hold nil, IRIs, embedded objects/actors/activities/places with ids (value and pointer form), id-less objects, links with and without id, lists of these with duplicates, id variants, nil and typed nil entries; attributedTo/replies/likes/shares also hold lists; tag, inReplyTo and context hold embedded objects that must stay; bounded-exhaustive: every list of <=5 (thorough <=6) entries over {A, variant of A, embedded A, embedded B, nil, id-less object, second id-less object} in `to` of an Object and in attributedTo; random beyond. oracle: reference URL normal form, first-mention rule, DeepEqual of the whole value, second application. Coq: random valid inputs, odd stream (collection objects in replies/likes/shares/attributedTo, links with ids in lists, nested lists, empty IRIs), FlattenItemCollection, Flatten, FlattenProperties. non-trivial = something to flatten; distinct by canonical model term"}
+	rep := &Report{Rule: "native: FlattenObjectProperties / FlattenActorProperties / FlattenIntransitiveActivityProperties / FlattenActivityProperties on values whose flattened positions hold nil, IRIs, embedded objects/actors/activities/places with ids (value and pointer form), id-less objects, links with and without id, lists of these with duplicates, id variants, nil and typed nil entries; attributedTo/replies/likes/shares also hold lists; tag, inReplyTo and context hold embedded objects that must stay; bounded-exhaustive: every list of <=5 (thorough <=6) entries over {A, variant of A, embedded A, embedded B, nil, id-less object, second id-less object} in `to` of an Object and in attributedTo; random beyond. oracle: reference URL normal form, first-mention rule, DeepEqual of the whole value, second application. Coq: random valid inputs, odd stream (collection objects in replies/likes/shares/attributedTo, links with ids in lists, nested lists, empty IRIs), FlattenItemCollection, Flatten, FlattenProperties; every second input and every Flatten input also applied TWICE on the real code against the model applied twice, with the domain of the whole-value theorems (fields_goodb / flat_ok) evaluated per case (valid stream must lie inside; inside, twice = once), plus five witnesses outside the domain on which twice differs from once. non-trivial = something to flatten; distinct by canonical model term"}
 	g := NewGen(seed, "C16")
 	ids := append([]string{}, c10Pool...)
 	ids = append(ids, "http://EXAMPLE.com/actors/alice/", "https://example.com/things/1", "", "-")
@@ -460,9 +460,27 @@ func runC16(seed int64, n int, tier string, outDir string) (*Report, error) {
 		"Definition ok (c : fkind * item * outcome item) : bool := let '(fk, x, o) := c in\n" +
 		"  match x with IObj true k fs => outcome_eqb item_eqb (omap (IObj true k) (flatten_fields_m fk fs)) o | _ => false end.\n"
 	cw := NewCaseWriter(outDir, "Cases_C16", hdr, "fkind * item * outcome item")
+	// the same inputs flattened TWICE on the real code, against the model applied twice, together with the domain
+	// of the whole-value theorems (C16_value / C16_idempotent: fields_goodb over the id pool): every input of the
+	// valid stream must lie inside it, and inside it the second application must change nothing
+	idParts := make([]string, len(ids))
+	for i, s := range ids {
+		idParts[i] = hx([]byte(s))
+	}
+	hdrT := "From AP.Model Require Import Prelude Vocab Pred IriEq Recip Flatten.\nFrom AP.Proofs Require Import FlattenIdemP.\n" +
+		"Definition pool_ids : list bytes := [" + strings.Join(idParts, "; ") + "].\n" +
+		"Definition ok (c : fkind * item * bool * outcome item * outcome item) : bool := let '(fk, x, valid, once, twice) := c in\n" +
+		"  match x with IObj true k fs =>\n" +
+		"    let g := fields_goodb pool_ids fk fs in\n" +
+		"    implb valid g && outcome_eqb item_eqb (omap (IObj true k) (flatten_fields_m fk fs)) once &&\n" +
+		"    outcome_eqb item_eqb (omap (IObj true k) (obind (flatten_fields_m fk fs) (flatten_fields_m fk))) twice &&\n" +
+		"    implb g (outcome_eqb item_eqb once twice)\n" +
+		"  | _ => false end.\n"
+	cwT := NewCaseWriter(outDir, "Cases_C16_twice", hdrT, "fkind * item * bool * outcome item * outcome item")
 	for i := 0; cw.total < n*2/3; i++ {
 		var in c16Input
-		if i%3 == 2 {
+		valid := i%3 != 2
+		if !valid {
 			in = c16Odd(g)
 			rep.Count("coq:odd-stream (not judged natively)")
 		} else {
@@ -474,6 +492,14 @@ func runC16(seed int64, n int, tier string, outDir string) (*Report, error) {
 		x := CoqItem(v)
 		pan := c16Apply(in.kind, v)
 		after := CoqItem(v)
+		if i%2 == 0 {
+			pan2 := pan
+			if pan == "" {
+				pan2 = c16Apply(in.kind, v)
+			}
+			cwT.Add("("+c16FK[in.kind]+", "+x+", "+cbool(valid)+", "+c16Outcome(pan, after)+", "+c16Outcome(pan2, CoqItem(v))+")", fmt.Sprintf("seed=%d twice %d", seed, i))
+			rep.Count("coq:twice")
+		}
 		cw.Add("("+c16FK[in.kind]+", "+x+", "+c16Outcome(pan, after)+")", fmt.Sprintf("seed=%d fields %d", seed, i))
 		rep.Distinguish(x, x != after)
 		rep.Count("coq:" + in.kind)
@@ -550,6 +576,66 @@ func runC16(seed int64, n int, tier string, outDir string) (*Report, error) {
 		rep.Count("coq:Flatten")
 	}
 
+	// (5b) Coq: Flatten twice on the real code vs the model twice; inside flat_ok (and ids in the pool) the second
+	// application must change nothing; the four witnesses of Props/C16.v (C16_twice_differs_*) lie outside and differ
+	hdr3t := "From AP.Model Require Import Prelude Vocab Pred IriEq Recip Flatten.\nFrom AP.Proofs Require Import FlattenIdemP.\n" +
+		"Definition pool_ids : list bytes := [" + strings.Join(idParts, "; ") + "].\n" +
+		"Definition ok (c : item * bool * outcome item * outcome item) : bool := let '(x, differs, once, twice) := c in\n" +
+		"  outcome_eqb item_eqb (flatten_m x) once && outcome_eqb item_eqb (obind (flatten_m x) flatten_m) twice &&\n" +
+		"  implb (flat_ok x && forallb (inb pool_ids) (flat_keys x)) (outcome_eqb item_eqb once twice) &&\n" +
+		"  implb differs (negb (flat_ok x) && negb (outcome_eqb item_eqb once twice)).\n"
+	cw3t := NewCaseWriter(outDir, "Cases_C16_flatten_twice", hdr3t, "item * bool * outcome item * outcome item")
+	flattenTwice := func(it ap.Item, differs bool, label string) {
+		x := CoqItem(it)
+		var o1, o2 string
+		pan := ""
+		func() {
+			defer func() {
+				if r := recover(); r != nil {
+					pan = fmt.Sprint(r)
+				}
+			}()
+			if l, ok := it.(ap.ItemCollection); ok {
+				it = append(ap.ItemCollection{}, l...)
+			}
+			out := ap.Flatten(it)
+			o1 = CoqItem(out)
+			if l, ok := out.(ap.ItemCollection); ok {
+				out = append(ap.ItemCollection{}, l...)
+			}
+			o2 = CoqItem(ap.Flatten(out))
+		}()
+		if pan != "" {
+			if o1 == "" {
+				o1 = "INil"
+			}
+			cw3t.Add("("+x+", "+cbool(differs)+", "+c16Outcome("", o1)+", "+c16Outcome(pan, "")+")", label)
+		} else {
+			cw3t.Add("("+x+", "+cbool(differs)+", "+c16Outcome("", o1)+", "+c16Outcome("", o2)+")", label)
+		}
+		rep.Count("coq:Flatten twice")
+	}
+	wObjA := func() ap.Item { return &ap.Object{ID: ap.IRI(c10Pool[0]), Type: ap.NoteType} }
+	flattenTwice(ap.ItemCollection{ap.ItemCollection{wObjA(), ap.Actor{ID: ap.IRI(c10Pool[6]), Type: ap.PersonType}}}, true, "witness nested list")
+	flattenTwice(ap.ItemCollection{(*ap.Object)(nil)}, true, "witness typed nil member")
+	flattenTwice(&ap.Object{ID: "-", Type: ap.NoteType}, true, "witness dash id")
+	flattenTwice(ap.ItemCollection{&ap.Collection{Type: ap.CollectionType, Items: ap.ItemCollection{wObjA()}}}, true, "witness id-less collection member")
+	flattenTwice(ap.ItemCollection{ap.IRI("")}, true, "witness empty IRI member")
+	for i := 0; i < n/9; i++ {
+		var it ap.Item
+		switch i % 3 {
+		case 0:
+			it = c16Item(g)
+		case 1:
+			it = c16OddItem(g)
+		default:
+			if l := c16List(g, 4); l != nil {
+				it = l
+			}
+		}
+		flattenTwice(it, false, fmt.Sprintf("seed=%d flatten twice %d", seed, i))
+	}
+
 	// (6) Coq: FlattenProperties on pointers whose struct type matches the class of the Type string
 	hdr4 := "From AP.Model Require Import Prelude Vocab Pred IriEq Recip Flatten.\n" +
 		"Definition ok (c : item * outcome item) : bool := let '(x, o) := c in outcome_eqb item_eqb (flatten_properties_m x) o.\n"
@@ -593,7 +679,7 @@ func runC16(seed int64, n int, tier string, outDir string) (*Report, error) {
 
 	var files []string
 	total := 0
-	for _, w := range []*CaseWriter{cw, cw2, cw3, cw4, cw5} {
+	for _, w := range []*CaseWriter{cw, cwT, cw2, cw3, cw3t, cw4, cw5} {
 		p, err := w.Close()
 		if err != nil {
 			return nil, err
